@@ -16,7 +16,7 @@ func init() {
 		Explanation: "Insert discipline of the index store, the one structural necessary condition of idempotent replay: (guarded-insert) every call of the generated (*models.Header).Insert in pkg/persisters is reachable only across the edge on which a lookup by the same key columns (name, linkname) of the same row variable returned sql.ErrNoRows, and the CREATE arm of the replay switch goes through that method; (guarded-key-rewrite) every raw `update ... set name = ?` statement (a primary-key rewrite) must be dominated by a check or clearing of the destination key; (replay-arms) the replay switch handles the three STFS actions and rejects unknown ones.",
 		NotDecided:  "Convergence itself (SQL state over histories), DELETE replay over tombstones, the `recovery index` default of overwrite=false.",
 		Assumptions: []string{"the headers table's primary key is (name, linkname) as in the migration"},
-		Rules:       []func(*Ctx){ruleC07GuardedInsert, ruleC07KeyRewrite, ruleC07ReplayArms},
+		Rules:       []func(*Ctx){ruleC07GuardedInsert, ruleC07KeyRewrite, ruleC07ReplayArms, ruleC07NoStateDependentRejection},
 	})
 }
 
@@ -67,12 +67,31 @@ func ruleC07GuardedInsert(c *Ctx) {
 					}
 					return true
 				})
-				if keys["Name"] && keys["Linkname"] {
+				// the columns the lookup filters on must be exactly the primary key: a further predicate (e.g. on
+				// `deleted`) lets the lookup report "no row" for a key that is still present, and the insert then
+				// fails on the UNIQUE constraint (re-creating a removed name, replaying a create twice)
+				cols := map[string]bool{}
+				ast.Inspect(call, func(m ast.Node) bool {
+					if s2, ok := m.(*ast.SelectorExpr); ok {
+						if s1, ok := ast.Unparen(s2.X).(*ast.SelectorExpr); ok && s1.Sel.Name == "HeaderColumns" {
+							cols[strings.ToLower(s2.Sel.Name)] = true
+						}
+					}
+					return true
+				})
+				pk := c.primaryKeyColumns()
+				exact := len(pk) > 0 && len(cols) == len(pk)
+				for _, k := range pk {
+					if !cols[k] {
+						exact = false
+					}
+				}
+				if keys["Name"] && keys["Linkname"] && exact {
 					lookupOK = true
 				}
 			})
 			c.verdictIf(okk && lookupOK, rule, f, construct, cs.Call.Pos(),
-				"insert happens only after a lookup by (name, linkname) of the same row reported no row", "a row can be inserted without a preceding lookup by its primary key having found nothing: replaying a record twice fails on the UNIQUE constraint")
+				"insert happens only after a lookup by exactly the primary key (name, linkname) of the same row reported no row", "a row can be inserted without a preceding lookup by exactly its primary key (no further predicate) having found nothing: replaying a record twice, or re-creating a removed name, fails on the UNIQUE constraint")
 		}
 	}
 	if n == 0 {
@@ -227,4 +246,131 @@ func ruleC07ReplayArms(c *Ctx) {
 	}
 	c.verdictIf(defaultReturnsError(info, table.defaultArm()), rule, ih, "default", table.Stmt.Pos(), "unknown actions are rejected", "unknown actions are silently accepted")
 	_ = cfg.KindBody
+}
+
+// primaryKeyColumns reads the generated model's primary key (`headerPrimaryKeyColumns = []string{...}`).
+func (c *Ctx) primaryKeyColumns() []string {
+	var out []string
+	for _, pkg := range c.Pkgs {
+		if pkg.PkgPath != modelsPath {
+			continue
+		}
+		for _, file := range pkg.Syntax {
+			ast.Inspect(file, func(n ast.Node) bool {
+				vs, ok := n.(*ast.ValueSpec)
+				if !ok {
+					return true
+				}
+				for i, nm := range vs.Names {
+					if nm.Name == "headerPrimaryKeyColumns" && i < len(vs.Values) {
+						if cl, ok := vs.Values[i].(*ast.CompositeLit); ok {
+							for _, e := range cl.Elts {
+								if s, ok := constString(pkg.TypesInfo, e); ok {
+									out = append(out, strings.ToLower(s))
+								}
+							}
+						}
+					}
+				}
+				return true
+			})
+		}
+	}
+	if len(out) == 0 {
+		c.unresolved("primary key columns of the generated header model")
+	}
+	return out
+}
+
+// ruleC07NoStateDependentRejection: replaying a record may fail because the record is malformed or the store fails,
+// never because of WHAT the index currently holds: a pass over a populated index meets rows that later records of the
+// same tape produced, so a rejection that looks at an existing row (its kind, its times, ...) aborts replays that a
+// rebuild into an empty index accepts. Decided for recovery.Index, indexHeader and the same-package helpers they
+// call: no error return is control-dependent on a value read from the index store.
+func ruleC07NoStateDependentRejection(c *Ctx) {
+	const rule = "C07.no-state-dependent-rejection"
+	c.floor(rule, 10, "error returns in recovery.Index, indexHeader and their helpers")
+	index := c.fn("pkg/recovery", "Index")
+	iface := c.namedType("pkg/config", "MetadataPersister")
+	s := c.sinks()
+	if index == nil || iface == nil {
+		return
+	}
+	// same-package closure of Index
+	set := []*FuncInfo{index}
+	seen := map[*FuncInfo]bool{index: true}
+	for i := 0; i < len(set); i++ {
+		for _, cs := range set[i].calls {
+			if g := cs.Target; g != nil && g.Pkg == index.Pkg && !seen[g] && g.Body() != nil {
+				seen[g] = true
+				set = append(set, g)
+			}
+		}
+		for _, l := range c.litsIn(set[i]) {
+			if !seen[l] {
+				seen[l] = true
+				set = append(set, l)
+			}
+		}
+	}
+	n := 0
+	for _, f := range set {
+		info := f.Pkg.TypesInfo
+		// values read from the index store: non-error results of non-mutating interface calls
+		tainted := map[types.Object]bool{}
+		walkOwn(f.Body(), func(nd ast.Node) {
+			as, ok := nd.(*ast.AssignStmt)
+			if !ok || len(as.Rhs) != 1 {
+				return
+			}
+			call, ok := ast.Unparen(as.Rhs[0]).(*ast.CallExpr)
+			if !ok {
+				return
+			}
+			fn, ok := calleeObj(info, call).(*types.Func)
+			if !ok {
+				return
+			}
+			sig, _ := fn.Type().(*types.Signature)
+			if sig == nil || sig.Recv() == nil || !types.Identical(sig.Recv().Type(), iface) || s.mutators[fn.Name()] {
+				return
+			}
+			for _, l := range as.Lhs {
+				o := objOfIdent(info, l)
+				if o == nil || o.Type().String() == "error" {
+					continue
+				}
+				tainted[o] = true
+			}
+		})
+		fl := c.flow(f)
+		for i, ret := range returnsIn(f) {
+			if len(ret.Results) == 0 || returnsNil(info, ret) {
+				continue
+			}
+			n++
+			if len(tainted) == 0 {
+				c.ok(rule, f, fmt.Sprintf("error return#%d", i+1), ret.Pos(), false, "function reads nothing from the index store")
+				continue
+			}
+			var witness string
+			dep, reach := fl.guardedBy(ret, func(ft Fact) bool {
+				for o := range tainted {
+					if usesObj(info, ft.E, o) {
+						witness = exprString(ft.E)
+						return true
+					}
+				}
+				return false
+			}, nil)
+			if !reach {
+				continue
+			}
+			c.verdictIf(!dep, rule, f, fmt.Sprintf("error return#%d", i+1), ret.Pos(), "the failure does not depend on a value read from the index",
+				"this error return is taken depending on what the index holds (`"+witness+"`): replaying the tape into an index that already reflects later records is rejected although a rebuild into an empty index accepts it")
+		}
+	}
+	if n < half(10) {
+		c.unresolved("only %d error returns found in the replay path", n)
+	}
 }
